@@ -329,3 +329,27 @@ func mseriesRead(raw json.RawMessage) (interface{}, error) {
 }
 
 func init() { Register("mseriesread", mseriesRead) }
+
+// mdumpsummaries: independent decode of the metrics block summary files (.mbsu): per file the list of
+// (block number, high timestamp, low timestamp). Layout: 1 version byte, then per block 2+8+8 bytes (timestamps in the low 4).
+func mdumpSummaries(raw json.RawMessage) (interface{}, error) {
+	out := map[string][][3]uint64{}
+	_ = filepath.Walk(DataDir+"data/", func(p string, info os.FileInfo, err error) error {
+		if err != nil || info.IsDir() || filepath.Ext(p) != ".mbsu" {
+			return nil
+		}
+		b, rerr := os.ReadFile(p)
+		if rerr != nil || len(b) < 1 {
+			return nil
+		}
+		var list [][3]uint64
+		for off := 1; off+18 <= len(b); off += 18 {
+			list = append(list, [3]uint64{uint64(binary.LittleEndian.Uint16(b[off:])), uint64(binary.LittleEndian.Uint32(b[off+2:])), uint64(binary.LittleEndian.Uint32(b[off+10:]))})
+		}
+		out[p[len(DataDir):]] = list
+		return nil
+	})
+	return out, nil
+}
+
+func init() { Register("mdumpsummaries", mdumpSummaries) }
